@@ -38,7 +38,12 @@
 (* intended Comparator = "numeric", ZeroSig = "renumbered".                *)
 (*                                                                         *)
 (* With Emit = TRUE every finished behaviour is printed as JSON (program,  *)
-(* offsets, signature structure) for replay into the real ufl.             *)
+(* offsets, signature structure, "differs from the base run") for replay   *)
+(* into the real ufl.  For trace validation the harness records runs of    *)
+(* the real code (script, observed counter values) and lets TLC evaluate   *)
+(* SigFrom(script, counters) for exactly those values; per script the      *)
+(* partition of the runs by real signature must be the partition by model  *)
+(* signature (vf/checks/c12.py).                                           *)
 (***************************************************************************)
 EXTENDS Integers, Sequences, FiniteSets, TLC, Json
 
